@@ -26,7 +26,14 @@ def _body(cs, a, b, k, x):
     invocations = []
     produced = {}
 
-    async def f(key):
+    # key k is a call pattern: patterns 0 and 1 share their only positional argument
+    PATS = [((1,), {}), ((1,), {"scale": 10}), ((2,), {})]
+
+    async def f(*a, **kw):
+        key = 0
+        for i, (pa, pk) in enumerate(PATS):
+            if pa == a and pk == kw:
+                key = i
         invocations.append(key)
         for _ in range(fsusp):
             await Suspend(W)
@@ -34,7 +41,24 @@ def _body(cs, a, b, k, x):
         produced.setdefault(key, []).append(val)
         return val
 
-    cf = A.lru_cache(maxsize=maxsize)(f)
+    cached = A.lru_cache(maxsize=maxsize)(f)
+
+    class _CF:
+        def __call__(self, key):
+            pa, pk = PATS[key]
+            return cached(*pa, **pk)
+
+        def cache_info(self):
+            return cached.cache_info()
+
+        def cache_clear(self):
+            return cached.cache_clear()
+
+        def cache_discard(self, key):
+            pa, pk = PATS[key]
+            return cached.cache_discard(*pa, **pk)
+
+    cf = _CF()
     # key plan: digits of a and b in base NK give the key of each call
     plan = []
     aa, bb = a, b
@@ -127,6 +151,10 @@ def _body(cs, a, b, k, x):
             ok = fail("lru_cache:second-sequential-call-not-a-hit", (key,)) and ok
         if maxsize is None and (r2[0] != "ok" or r2[1] is not r1[1]):
             ok = fail("lru_cache:second-sequential-call-not-a-hit", (key,)) and ok
+    cf.cache_clear()
+    ic = cf.cache_info()
+    if (ic.hits, ic.misses, ic.currsize) != (0, 0, 0):
+        ok = fail("lru_cache:cache_clear-does-not-reset-at-quiescence", ic) and ok
     for v in W.viol:
         ok = fail("lru_cache:%s" % v, choices.trace) and ok
     switches = 0
